@@ -24,7 +24,7 @@ LEVEL = 'model_checking'
 TECHNIQUE = ('bounded exhaustive enumeration of (quantified pattern sequence, element sequence, container) on the real matcher with '
              "Python's re as reference model on every case; exhaustive self-match / leaf-mutation / layout / call-order "
              'enumeration over the program set')
-LEVEL_TEXT = ('all pattern sequences up to length 3 over a 29-element quantifier alphabet (incl. static tags and single-node captures inside quantifiers) x all element sequences up to length 5 '
+LEVEL_TEXT = ('all pattern sequences up to length 3 over a 33-element quantifier alphabet (incl. static tags and single-node captures inside quantifiers) x all element sequences up to length 5 '
               'over {a,b,c} in three container kinds are matched by the real code and compared (accept/reject and captured '
               'spans) with re.fullmatch; every node of 45 programs x derived patterns for the structural laws')
 LEVEL_NOTE = ('trusted: Python re as the definition of quantifier semantics (sub-sequence quantifiers with inner quantifiers are '
@@ -33,7 +33,7 @@ RULE = ('enum: case = (container, pattern sequence, element string) or (program,
         'cases where the regex accepts (captures compared) or a structural law was exercised on a node with children; '
         'traces = matches compared with the reference')
 ASSUMPTIONS = ['patterns without source-text sub-patterns for the layout law']
-BOUNDS = {'quick': 'pattern sequences <= 3 over 29 alphabet entries (<=2 quantifiers with captures), strings <= 4 over {a,b,c} in '
+BOUNDS = {'quick': 'pattern sequences <= 3 over 33 alphabet entries (<=2 quantifiers with captures), strings <= 4 over {a,b,c} in '
                    'List.elts; length-2 sequences in body and Tuple; structural laws on 45 programs',
           'thorough': 'strings <= 6, sequences <= 3 in all containers, sequences of 4 over the 10-entry core alphabet'}
 
